@@ -48,8 +48,8 @@ type c13Mock struct {
 }
 
 func (m *c13Mock) Connect(context.Context, string, ...ConnectOption) (bool, error) { return false, nil }
-func (m *c13Mock) Disconnect(context.Context) error                                 { return nil }
-func (m *c13Mock) Publish(context.Context, *Message) error                          { return nil }
+func (m *c13Mock) Disconnect(context.Context) error                                { return nil }
+func (m *c13Mock) Publish(context.Context, *Message) error                         { return nil }
 func (m *c13Mock) Subscribe(context.Context, ...Subscription) ([]Subscription, error) {
 	return nil, nil
 }
